@@ -203,3 +203,64 @@ class RandomDnaHandsOutBoundDna(_HandOut):
     if prev != 'omitted':
       self._kw['previous_dna'] = prev
     return dict(self=self.spec()), {}
+
+
+# DNA.from_fn: generation by a user function hands out a bound DNA as well.
+from pyvc.values import ExcVal   # noqa: E402  pylint: disable=wrong-import-position
+
+@register
+class DNAFromFnBinds(Contract):
+  """The public entry point: the DNA generated by the recursion (contract
+  DNAFromFn above) is handed out after exactly one use_spec(dna_spec) -- bound
+  to the spec that was asked, like the DNAs of from_numbers / first_dna."""
+  prop = 'C12'
+  target = f'{GB}:DNA.from_fn'
+  name = 'DNA.from_fn/binds'
+  raises = {ValueError: (), TypeError: ()}
+
+  def inputs(self, b):
+    self._spec = SObj(geno.Space, {}, name='dna_spec')
+    self._fn = SAny('generator_fn')
+    return dict(cls=geno.DNA, dna_spec=self._spec, generator_fn=self._fn), {}
+
+  def setup_policy(self, policy):
+    me = self
+
+    def rec(interp, frame, args, kwargs):
+      a = [interp.resolve(x) for x in args]
+      me._made = SObj(geno.DNA, {}, name='made')
+      interp.path.event('rec', 'DNA._from_fn', a[-2:])
+      if interp.path.decide(2, 'generation-refused') == 1:
+        raise I.PyRaise(ExcVal(ValueError, ('invalid',)))
+      return me._made
+    policy.contracts[f'{GB}:DNA._from_fn'] = rec
+
+    def use_spec(interp, frame, args, kwargs):
+      interp.path.event('bind', 'DNA.use_spec', [interp.resolve(a) for a in args])
+      return args[0]
+    policy.contracts[f'{GB}:DNA.use_spec'] = use_spec
+
+  def drive(self, interp, pyf, args, env, check):
+    return interp.call_function(pyf, [geno.DNA, args['dna_spec'], args['generator_fn']], {})
+
+  def trace_generated_once_then_bound_to_the_asked_spec(self, events, outcome, interp, env):
+    recs = [e for e in events if e.kind == 'rec']
+    binds = [e for e in events if e.kind == 'bind']
+    if len(recs) != 1 or recs[0].data[0] is not self._spec or recs[0].data[1] is not self._fn:
+      return False
+    if outcome[0] != 'return':
+      return not binds
+    r = interp.resolve(outcome[1])
+    return r is self._made and len(binds) == 1 and binds[0].data[0] is r and binds[0].data[1] is self._spec
+
+
+def _from_fn_binds_replay(self, obligation, m):
+  g = pg.geno
+  spec_ = g.space([g.oneof([g.constant(), g.constant()], location='a'), g.floatv(0., 1., location='b')])
+  x = pg.DNA.from_fn(spec_, lambda dp: [0] if dp.is_categorical else 0.5)
+  bad = [] if x.spec is spec_ else [f'DNA.from_fn(spec, fn) handed out {x!r} bound to {x.spec!r:.30}, not to the asked spec']
+  return dict(outcome='reproduced' if bad else 'not-reproduced', detail='; '.join(bad) or 'bound to the asked spec')
+
+
+DNAFromFnBinds.replay = _from_fn_binds_replay
+DNAFromFnBinds.small_models = _HandOut.small_models
